@@ -135,6 +135,9 @@ structure Kernel where
   schedRev : List SStep := []
   seed : Nat := 0
   maxSteps : MaxSteps := .none
+  /-- `std::thread::panicking()`: some task is unwinding (the flag is per OS thread, and every
+  Shuttle task runs on the same one) — the task and its payload -/
+  panicking : Option (Nat × String) := none
 deriving Repr, Inhabited
 
 /-- `StepError` (the payload of a task failure is the panic message). -/
@@ -275,6 +278,8 @@ inductive KOp (U : Type) : Type → Type where
   | resetSteps : KOp U Unit
   /-- `current::context_switches()` -/
   | ctxSwitches : KOp U Nat
+  /-- `std::thread::panicking()` -/
+  | isPanicking : KOp U Bool
 
 /-- Programs: the freer monad over `KOp`, plus `panic`. -/
 inductive Prog (U : Type) : Type → Type 1 where
@@ -303,6 +308,8 @@ structure Program where
   U : Type
   init : U
   bodies : Nat → Prog U Unit
+  /-- what unwinding task `tid` runs after a panic: the destructors of its live locals -/
+  unwind : Nat → Prog U Unit := fun _ => .pure ()
 
 /-! ### Execution -/
 
@@ -323,6 +330,7 @@ inductive Outcome where
   | stepBoundFail (n : Nat)
   | abandoned            -- `ContinueAfter` bound reached: silently stopped
   | stopped              -- the scheduler returned `None`
+  | abort (msg : String) -- a second panic while one is being unwound: the process aborts
   | schedulingError
   | schedPanic (msg : String)
   | outOfFuel
@@ -420,6 +428,7 @@ inductive SegEnd (P : Program) (σ : Type) where
   | returned (st : ExecState P σ)          -- the task's closure returned
   | panicked (msg : String) (st : ExecState P σ)
   | schedPanic (msg : String) (st : ExecState P σ)
+  | aborted (msg : String) (st : ExecState P σ)
   | outOfFuel (st : ExecState P σ)
 
 def kpanic {P : Program} {σ : Type} (st : ExecState P σ) (msg : String) : SegEnd P σ := .panicked msg st
@@ -429,8 +438,18 @@ Every kernel request is one case; `fuel` bounds the number of requests in one se
 def runSegment {P : Program} {σ : Type} (S : Scheduler σ) (me : Nat) :
     Nat → ExecState P σ → Prog P.U Unit → SegEnd P σ
   | 0, st, p => .outOfFuel { st with conts := st.conts.set me p }
-  | _ + 1, st, .pure () => .returned { st with conts := st.conts.set me (.pure ()) }
-  | _ + 1, st, .panic msg => .panicked msg st
+  | _ + 1, st, .pure () =>
+    -- the closure returned — or, for the unwinding task, all destructors have run and the panic
+    -- reaches `catch_unwind` in the run loop
+    match st.k.panicking with
+    | some (t, msg) => if t == me then .panicked msg st else .returned { st with conts := st.conts.set me (.pure ()) }
+    | none => .returned { st with conts := st.conts.set me (.pure ()) }
+  | fuel + 1, st, .panic msg =>
+    match st.k.panicking with
+    | some _ => .aborted msg st                     -- panic while panicking
+    | none =>
+      -- start unwinding: run the task's destructors (they may reach scheduling points)
+      runSegment S me fuel { st with k := { st.k with panicking := some (me, msg) } } (P.unwind me)
   | fuel + 1, st, .op o kont =>
     let k := st.k
     let onTask (t : Nat) (f : Task → Except String Task) (cont : Prog P.U Unit) : SegEnd P σ :=
@@ -496,6 +515,7 @@ def runSegment {P : Program} {σ : Type} (S : Scheduler σ) (me : Nat) :
     | .exitTruncates => runSegment S me fuel st (kont (k.exitTruncates me))
     | .resetSteps => runSegment S me fuel { st with k := { k with stepsResetAt := k.schedLen } } (kont ())
     | .ctxSwitches => runSegment S me fuel st (kont k.ctxSwitches)
+    | .isPanicking => runSegment S me fuel st (kont k.panicking.isSome)
 
 structure Result (P : Program) (σ : Type) where
   outcome : Outcome
@@ -538,6 +558,7 @@ def runLoop {P : Program} {σ : Type} (S : Scheduler σ) (segFuel : Nat) :
             | .error e => ⟨.panic t e, st'⟩
           | .panicked msg st' => ⟨.panic t msg, st'⟩
           | .schedPanic msg st' => ⟨.schedPanic msg, st'⟩
+          | .aborted msg st' => ⟨.abort msg, st'⟩
           | .outOfFuel st' => ⟨.outOfFuel, st'⟩
 
 /-- `Execution::run`: fresh `ExecutionState`, `CurrentSchedule::init(Schedule::new(seed))`,
